@@ -43,10 +43,22 @@ def gen_tx(rng, pool=(), nin=None, nout=None, wit=None):
         n = pick(rng, (0, 1, U32, U32 - 1, 1 << 31) + pool32, lambda: rng.randrange(U32 + 1), 0.5)
         q = pick(rng, SEQ_EDGES + pool32, lambda: rng.randrange(U32 + 1))
         vin.append((h, n, gen_script_any(rng, pool), q))
+    # coinciding elements (round 10, C03r10): two inputs that agree in the outpoint (or the whole outpoint + script) but
+    # not in the sequence — "the other inputs" must be told apart by POSITION, not by what they spend
+    if nin >= 2 and rng.random() < 0.3:
+        i, j = rng.sample(range(nin), 2)
+        h, n, sc, q = vin[i]
+        kind = rng.randrange(3)
+        vin[j] = (h, n, vin[j][2], vin[j][3]) if kind == 0 else (h, n, sc, vin[j][3]) if kind == 1 else (h, n, sc, q)
+        if kind < 2 and vin[j][3] in (0, q):
+            vin[j] = vin[j][:3] + (rng.choice((1, U32, U32 - 1)),)
     vout = []
     for _ in range(nout):
         v = pick(rng, VAL_EDGES, lambda: rng.randrange(-(1 << 63), 1 << 63), 0.5)
         vout.append((v, gen_script_any(rng, pool)))
+    if nout >= 2 and rng.random() < 0.2:                 # likewise two equal outputs
+        i, j = rng.sample(range(nout), 2)
+        vout[j] = vout[i]
     if wit is None:
         wit = rng.choice(['none', 'none', 'empty', 'some', 'all'])
     if wit == 'none' or nin == 0:
